@@ -133,7 +133,11 @@ class Process(metaclass=abc.ABCMeta):
 
         self._parameters = copy.deepcopy(self.defaults)
         self._parameters = deep_merge(self._parameters, parameters)
-        self._schema_override: Schema = self._parameters.get('_schema', {})
+        # the process's own copy: overrides merged in later must not
+        # reach the caller's parameter dictionary, nor the other
+        # processes built from it
+        self._schema_override: Schema = copy.deepcopy(
+            self._parameters.get('_schema', {}))
         self._parallel = self._parameters.get('_parallel', False)
         self._condition_path: Optional[HierarchyPath] = None
         self._command_result: Any = None
